@@ -299,6 +299,28 @@ func theAPI() api.Service {
 	return sharedAPI
 }
 
+// gcDiscover is the chunkinfo the *store* sees (db.SetChunkInfo): the real
+// ChunkInfo behind a pass-through whose DelFile — only the garbage collector
+// calls it through this value — first gives the harness a scheduling point
+// (Node.OnGCDelFile). A call out to another component is where a concurrent
+// operation naturally interleaves with a collection run: collectGarbage holds
+// no lock there and chunkinfo has not taken its own yet.
+type gcDiscover struct {
+	chunkinfo.Interface
+	n *Node
+}
+
+func (g gcDiscover) DelFile(rootCid boson.Address, del func() error) error {
+	if g.n.OnGCDelFile != nil {
+		g.n.OnGCDelFile(rootCid)
+	}
+	err := g.Interface.DelFile(rootCid, del)
+	if g.n.AfterGCDelFile != nil {
+		g.n.AfterGCDelFile(rootCid, err)
+	}
+	return err
+}
+
 // ---------------------------------------------------------------- node
 
 type Options struct {
@@ -317,6 +339,10 @@ type Node struct {
 	Pin         *pinning.Service
 	CI          *chunkinfo.ChunkInfo
 	Deliverable func(boson.Address) bool
+	// OnGCDelFile / AfterGCDelFile are called around every chunkinfo.DelFile
+	// call the garbage collector makes (one per eviction candidate).
+	OnGCDelFile    func(root boson.Address)
+	AfterGCDelFile func(root boson.Address, err error)
 	Retrieved   int
 	GCRuns      int // collectGarbage calls so far
 	closed      bool
@@ -358,7 +384,7 @@ func (n *Node) open() error {
 	if err := n.CI.InitChunkInfo(); err != nil {
 		return err
 	}
-	db.SetChunkInfo(n.CI)
+	db.SetChunkInfo(gcDiscover{Interface: n.CI, n: n})
 	n.NS.SetChunkInfo(n.CI)
 	n.closed = false
 	current = n
